@@ -15,9 +15,31 @@ import (
 // Canon turns a destination value into a JSON-able canonical tree. Times are
 // rendered as instants (zone-free), floats via their bit pattern class so that
 // NaN equals NaN.
+// canonCap: when set, Canon views every slice up to its CAPACITY (the memory behind it that a write through an
+// alias could reach), marking where the length ends. Used through CanonCapJSON only.
+var canonCap bool
+
+// CanonCapJSON is CanonJSON over the whole backing arrays of the slices in v.
+func CanonCapJSON(v reflect.Value) string {
+	canonCap = true
+	defer func() { canonCap = false }()
+	return CanonJSON(v)
+}
+
 func Canon(v reflect.Value) any {
 	if !v.IsValid() {
 		return nil
+	}
+	if canonCap && v.Kind() == reflect.Slice && !v.IsNil() && v.Cap() > v.Len() {
+		full := v.Slice(0, v.Cap())
+		out := make([]any, 0, v.Cap()+1)
+		for i := 0; i < full.Len(); i++ {
+			if i == v.Len() {
+				out = append(out, "|len")
+			}
+			out = append(out, Canon(full.Index(i)))
+		}
+		return out
 	}
 	switch v.Kind() {
 	case reflect.String:
